@@ -70,4 +70,12 @@ theorem seenAll2Fast_eq (m R : Nat) (labF labC : Nat → Nat → Bool) (nx ny cn
 theorem seenAll3Fast_eq (m R : Nat) (labF labC : Nat → Nat → Nat → Bool) (nx ny nz cnx cny cnz : Nat) :
     seenAll3Fast m R labF labC nx ny nz cnx cny cnz = seenAll3 m R labF labC nx ny nz cnx cny cnz := rfl
 
+/-- The bisection of `msSearch` / `mcSearchPoint` along the lattice edge a vertex lies on: `f` is the
+end of the edge outside the solid, `t` the end inside; `iters` halvings, then the midpoint.
+(`for i := 0; i < iters; i++ { mid := (f+t)/2; if s.Contains(mid) { t = mid } else { f = mid } }; (f+t)/2`) -/
+def searchAxis {α : Type} [Add α] [Div α] [OfNat α 2] (inside : α → Bool) : Nat → α → α → α
+  | 0, f, t => (f + t) / 2
+  | n + 1, f, t => if inside ((f + t) / 2) then searchAxis inside n f ((f + t) / 2)
+      else searchAxis inside n ((f + t) / 2) t
+
 end M3d.C2F
